@@ -1067,6 +1067,23 @@ func c05RoundTrips(run *mon.Run, r *rand.Rand, cv ref.Conv) {
 	}
 	for _, o := range objs {
 		rep := map[string]any{"object": o.name, "alg": o.alg.String()}
+		// what an object says about itself agrees with its encoding: Algorithm(), Size() = length of Encode(),
+		// String() = "0x" + hex of Encode(); the same for the re-decoded twin
+		meta := func(kind string, alg crypto.SigningAlgorithm, size int, str string, enc []byte) {
+			run.Eval(1)
+			if alg != o.alg || size != len(enc) || str != "0x"+mon.Hex(enc) {
+				run.Violate("C05:self-description:"+kind+":"+o.name, fmt.Sprintf("%s key (%s): Algorithm() = %v, Size() = %d, String() = %q, while Encode() is the %d bytes %x", kind, o.name, alg, size, str, len(enc), enc), rep)
+			}
+		}
+		if o.sk != nil {
+			meta("private", o.sk.Algorithm(), o.sk.Size(), o.sk.String(), o.sk.Encode())
+			if pk := o.sk.PublicKey(); pk != nil {
+				meta("derived-public", pk.Algorithm(), pk.Size(), pk.String(), pk.Encode())
+			}
+		}
+		if o.pk != nil {
+			meta("public", o.pk.Algorithm(), o.pk.Size(), o.pk.String(), o.pk.Encode())
+		}
 		if o.sk != nil {
 			e := o.sk.Encode()
 			d, err := crypto.DecodePrivateKey(o.alg, e)
